@@ -29,16 +29,17 @@ REQUIRED = [
     "DaeVerif.C11.Props.matcher_trie_path_eq_contract",
     "DaeVerif.C11.Props.normName_case_insensitive",
     "DaeVerif.C11.Props.normName_trailing_dot",
-    "DaeVerif.C11.Props.keyword_lookup_eq_meaning",
-    "DaeVerif.C11.Props.keyword_start_anchor",
-    "DaeVerif.C11.Props.keyword_end_anchor",
-    "DaeVerif.C11.Props.keyword_both_anchors",
-    "DaeVerif.C11.Props.keyword_plain",
     "DaeVerif.C11.Props.domain_matcher_bitmap_correct",
     "DaeVerif.C11.Props.negative_index_is_out_of_range",
     "DaeVerif.C11.Props.ac_contains_iff_infix",
-    "DaeVerif.C11.Props.keyword_automaton_eq_meaning",
     "DaeVerif.C11.Props.alphabets_nodup",
+    "DaeVerif.C11.Props.keyword_with_marks_is_skipped",
+    "DaeVerif.C11.Props.empty_keyword_never_matches",
+    "DaeVerif.C11.Props.replay_is_fold_of_addSetGo",
+    "DaeVerif.C11.Props.domain_matcher_correct_any_case",
+    "DaeVerif.C11.Props.domain_matcher_bitmap_correct_any_case",
+    "DaeVerif.C11.Props.full_pattern_any_case",
+    "DaeVerif.C11.Props.bitlist_words_ok",
 ]
 
 # generator scale the evidence may claim (the check refuses to finish below these)
